@@ -471,7 +471,7 @@ func (s *vScenario) projectJob(kind string) map[string]any {
 	none := func() map[string]any {
 		switch kind {
 		case "import":
-			return map[string]any{"phase": "none", "batch": []int{}, "idx": []string{}, "next": 0, "file": "", "upd": []int{}, "res": []int{}, "add": []int{}, "used": 0, "err": ""}
+			return map[string]any{"phase": "none", "batch": []int{}, "idx": []string{}, "next": 0, "file": "", "upd": []int{}, "res": []int{}, "add": []int{}, "used": 0, "n": 0, "err": ""}
 		case "tag":
 			return map[string]any{"phase": "none", "tag": "", "def": vDef{S: []int{}}, "U0": []int{}, "M0": []int{}, "idx": []string{}, "td": map[string]any{}, "M1": []int{}, "err": ""}
 		case "merge":
@@ -513,7 +513,11 @@ func (s *vScenario) projectJob(kind string) map[string]any {
 			}
 			j["upd"], j["res"], j["add"] = ids(in.result[2]), ids(in.result[3]), ids(in.result[4])
 			j["used"] = len(j["add"].([]int))
+			j["n"] = in.result[0].(int)
 			j["err"] = errStr(in.result[5])
+			if len(batch) > 0 && batch[0] >= 90 { // an unreadable capture at the head of the batch is part of the schedule
+				j["err"] = ""
+			}
 		}
 	case "tag":
 		t := in.start[1].(*tag)
